@@ -225,6 +225,15 @@ def pyEqCond (v : Val) (c : CondVal) : Bool :=
   | .flt r, .bool c => if c then r = "1.0".toList else (r = "0.0".toList || r = "-0.0".toList)
   | _, _ => false
 
+/-- scope guard of the `text()` condition: `int(expected)` for an `int`/`bool` node is modelled for
+ASCII text only (Python also accepts other Unicode digits), `float(expected)` for a float node is
+not modelled -/
+def textGuard (pv : Val) (v : CondVal) : Bool :=
+  match pv, v with
+  | .int _, .str t | .bool _, .str t => t.any (fun c => c.toNat ≥ 128)
+  | .flt _, .str _ => true
+  | _, _ => false
+
 /-- `parent == expected` of the `text()` condition: an expected text that parses as an int is
 compared as a number with an `int` (or `bool`) node, otherwise it is not equal to it; float nodes
 with an expected text are outside the model (guarded in `findD`) -/
@@ -483,13 +492,7 @@ def findD (fuel : Nat) (root : Val) (sp : Pos) (ps entry : Bool) (toks : List St
     | .cond k op v =>
       if k = sTextFn then
         -- text() condition on the parent itself
-        -- `int(expected)` / `float(expected)` for a numeric node: non-ASCII digits and float
-        -- lexemes are outside the model
-        let guard : Bool := match pv, v with
-          | .int _, .str t | .bool _, .str t => t.any (fun c => c.toNat ≥ 128)
-          | .flt _, .str _ => true
-          | _, _ => false
-        if guard then .error .Unsupported else
+        if textGuard pv v then .error .Unsupported else
           let op1 := op.drop 1
           let cmp : PyM Bool :=
             if op1 = ['='] then .ok (textEqCond pv v)
